@@ -152,6 +152,25 @@ def findVisit (s : Spec) (one : BBR → FindRes) : List BBR → Option Nat
 /-- `find_prev_non_zero_value_fast` -/
 def findPrevFast (env : MapEnv) (s : Spec) (m : Mem) (a limit : Nat) : Option Nat :=
   if !env.mapped a then none else
+  let startAddr := (a - limit) + 1          -- saturating_sub
+  if load s m a ≠ 0 then
+    (if alignDown a (2 ^ s.logRegion) ≥ startAddr then some (alignDown a (2 ^ s.logRegion)) else none) else
+  let endAddr := a
+  let sma := metaAddr s startAddr
+  let sms := lshift s startAddr
+  let ema := metaAddr s endAddr
+  let ems := lshift s endAddr
+  let one : BBR → FindRes
+    | .bytes st en => findLastInBytes env m st en
+    | .bits ad bs be => findLastInBits env m ad bs be
+  let res := findVisit s one (breakBitRange sma sms ema ems false)
+  (res.map fun x => alignDown x (2 ^ s.logRegion)).filter fun x => decide (x ≥ startAddr) && decide (x < endAddr)
+
+
+/-- (the pinned tree's version, before the `fix:` commit: the quick check ignored the search limit)
+ `find_prev_non_zero_value_fast` -/
+def findPrevFastOld (env : MapEnv) (s : Spec) (m : Mem) (a limit : Nat) : Option Nat :=
+  if !env.mapped a then none else
   if load s m a ≠ 0 then some (alignDown a (2 ^ s.logRegion)) else
   let startAddr := (a - limit) + 1          -- saturating_sub
   let endAddr := a
